@@ -438,7 +438,7 @@ func trcOpWord(chain []*x509.Certificate, t trcEnt, at time.Time, ref time.Time)
 	}
 	roots := pki2.RootsOf(t.certs)
 	ok := pki2.X509OK(leaf, inter, roots, at)
-	return fmt.Sprintf("t %s %s %s", b(ok), pki2.FactsList(t.certs, ref), pki2.X509FactsWord(leaf, inter, roots, ref))
+	return fmt.Sprintf("t %s %s %s", b(ok), pki2.FactsList(t.certs, ref), pki2.X509FactsWord(inter, roots, ref))
 }
 
 func b(v bool) string {
@@ -470,7 +470,9 @@ func instants(chain []*x509.Certificate, trcs []trcEnt, T0 time.Time, r *vlib.Ra
 
 func runVfy(e *vlib.Env, w *world, ch chainEnt, ts []trcEnt, at time.Time) {
 	var args []*cppki.TRC
-	words := []string{"vfy", fmt.Sprintf("%d", pki2.Rel(at, w.T0)), pki2.FactsList(ch.certs, w.T0), fmt.Sprintf("%d", len(ts))}
+	asByCa := len(ch.certs) == 2 && pki2.SigBy(ch.certs[0], ch.certs[1])
+	words := []string{"vfy", fmt.Sprintf("%d", pki2.Rel(at, w.T0)), pki2.FactsList(ch.certs, w.T0), b(asByCa),
+		fmt.Sprintf("%d", len(ts))}
 	names := []string{}
 	for _, t := range ts {
 		args = append(args, mkTRCArg(t, w.T0))
